@@ -123,11 +123,14 @@ class Gen:
                 toks += self.test(depth - 1, need)
             elif a["types"] == ["testlist"]:
                 n = self.r.randint(1, 3)
+                subs = [self.test(depth - 1, need) for _ in range(n)]
+                if self.r.random() < 0.3:
+                    subs.append(list(self.r.choice(subs)))      # the same test twice in one list (legal; last = an earlier one)
                 toks.append(b"(")
-                for i in range(n):
+                for i, sub in enumerate(subs):
                     if i:
                         toks.append(b",")
-                    toks += self.test(depth - 1, need)
+                    toks += sub
                 toks.append(b")")
             else:
                 toks += self.required_value(a)
